@@ -94,11 +94,16 @@ pub struct History {
 const ALPHA: [&str; 8] = ["a", "é", "€", "👌", " ", "\n", "\r", "\r\n"];
 
 fn gen_text(rng: &mut Rng) -> String {
-    let len = match rng.weighted(&[10, 40, 35, 15]) {
+    // mostly tiny; 2 % long (hundreds of pieces) and 0.3 % very long (thousands): an
+    // implementation may index in batches (64, 256, 1024 lines ...), and a text shorter than the
+    // batch never leaves the first one
+    let len = match rng.weighted(&[100, 400, 350, 127, 20, 3]) {
         0 => 0,
         1 => rng.range_usize(1, 5),
         2 => rng.range_usize(4, 12),
-        _ => rng.range_usize(10, 24),
+        3 => rng.range_usize(10, 24),
+        4 => rng.range_usize(150, 900),
+        _ => rng.range_usize(2500, 6000),
     };
     // per-text terminator density (swarm): sparse, medium, dense
     let term_w = *rng.pick(&[2u32, 6, 14]);
